@@ -6,6 +6,7 @@ import (
 	"encoding/json"
 	"fmt"
 	"os"
+	"runtime"
 	"sort"
 	"sync"
 	"testing"
@@ -61,7 +62,7 @@ func NewReport(property string) *Report {
 	return &Report{
 		r: Result{
 			Property: property, Seed: Seed(), Tier: tier,
-			Counters: map[string]int64{}, Extra: map[string]interface{}{},
+			Counters: map[string]int64{"child_processes_goarch_" + runtime.GOARCH: 1}, Extra: map[string]interface{}{},
 		},
 		distinct: map[[8]byte]struct{}{},
 		viol:     map[string]*Violation{},
